@@ -11,6 +11,18 @@ holding the body in three wrappings
 and run with ELK_DEFAULT_THREAD_POOL_SIZE in {1,2,4}.  Expected output of every section comes from the
 extracted Coq model (ocaml/C15): reference interpreter S for P/A/B, the resumable machine for F/G.
 
+Second pass (depth sweep): every run also gets an ELK_INIT_VALUE_STACK_SIZE from a lattice and two more sections
+    D   the generator is resumed from the bottom of a recursion, at value-stack depths that sweep from 0 past the
+        first two growth thresholds of that stack size (70 % of the capacity, then of the doubled capacity) in
+        strides of a few frames; the bottom frame holds padding locals, so that the `next` (phase "N": explicit
+        next calls, the first j of them at depth 0 so that the resume that meets the threshold is the j-th one;
+        phase "F": for-in over a generator passed down the recursion) is the operation that crosses the threshold
+    M   an async twin `am` of the body whose awaited helper promises are created first and held in locals
+        (`p := ah1(..)` ... `h0(x, await p)`: operands on the stack at the await) is awaited many times in a row,
+        so that the pool workers are suspended/resumed at ever higher levels of their own value stack
+Both are compared line by line with the same extracted model results (the model has no notion of depth: the
+mechanism theorem C15_resume_after_grow says depth and reallocation must not matter).
+
 Python-level case = s-expression  (fn NP (INIT...) BODY FINAL (ARGS...) ...):
   expr  (c n) | (v i) | (+ a b) | (- a b) | (* a b) | (h k a b) | (ha k a b)
   cond  (lt a b) | (le a b) | (eq a b) | (not c) | (and c d) | (or c d)
@@ -102,6 +114,59 @@ def nx(g: Generator[Int, String]): String
 end
 '''
 
+PAD = 26           # padding locals of the bottom frames of the depth sweep (slots between the last growth check and the resume)
+FRAME = 3          # value-stack slots per recursion level of rg / rf (self, d, g)
+VALUE_SIZE = 24    # bytes per value-stack slot (value.ValueSize); MIN_INIT_VALUE_STACK_SIZE = 256 slots
+DEFAULT_INIT = 24000
+# ELK_INIT_VALUE_STACK_SIZE lattice (None = variable unset); cf. checks/C10.py
+SIZE_LATTICE = ["1", "6400", "6800", "7200", "9000", "12000", None]
+
+_pads = "\n".join("  q%d := 0" % i for i in range(PAD))
+# the catch clauses run at depth 0 only: a catch clause that runs while the value stack is more than half full
+# writes outside the stack (finding `catch-clause-above-half-stack`, fixes/C15-pop-skip-one-out-of-bounds.patch)
+PRELUDE_DEPTH = '''def nb(g: Generator[Int, String]): Int ! String | :stop_iteration
+%s
+  try g.next
+end
+def rg(d: Int, g: Generator[Int, String]): Int ! String | :stop_iteration
+  if d <= 0
+    return try nb(g)
+  end
+  try rg(d - 1, g)
+end
+def nxd(d: Int, g: Generator[Int, String]): String
+  do
+    t := rg(d, g)
+    "V " + t.inspect
+  catch :stop_iteration
+    "S"
+  catch String() as e
+    "E " + e
+  end
+end
+def cfb(g: Generator[Int, String]): String ! String
+%s
+  s := ""
+  for x in g
+    s = s + "V " + x.inspect + "|"
+  end
+  s + "END"
+end
+def rf(d: Int, g: Generator[Int, String]): String ! String
+  if d <= 0
+    return try cfb(g)
+  end
+  try rf(d - 1, g)
+end
+def fd(d: Int, g: Generator[Int, String]): String
+  do
+    rf(d, g)
+  catch String() as e
+    "E " + e
+  end
+end
+''' % (_pads, _pads)
+
 # ------------------------------------------------------------------ printing to Elk
 
 
@@ -139,11 +204,26 @@ def can_throw(fn):
 
 
 class Printer:
-    """mode: 'P' plain, 'G' generator, 'A' async.  closures: print bumps through closures"""
+    """mode: 'P' plain, 'G' generator, 'A' async, 'M' async with the awaited helper promises created first and
+    held in locals (awaited with the other operands of the expression already on the stack).
+    closures: print bumps through closures"""
 
     def __init__(self, mode, closures):
         self.mode = mode
         self.closures = closures
+        self.pre = None       # mode M: promise creations to print before the current statement
+        self.npromise = 0
+
+    def hoisted(self, pad, out, f):
+        """print the statement f() builds; in mode M its awaited helper calls become promise locals first"""
+        if self.mode != "M":
+            out.append(pad + f())
+            return
+        self.pre = []
+        line = f()
+        out.extend(pad + l for l in self.pre)
+        self.pre = None
+        out.append(pad + line)
 
     def expr(self, e):
         k = e[0]
@@ -154,8 +234,13 @@ class Printer:
         if k in ("+", "-", "*"):
             return "(%s %s %s)" % (self.expr(e[1]), k, self.expr(e[2]))
         if k in ("h", "ha"):
-            if k == "ha" and self.mode == "A":
-                return "(await ah%s(%s, %s))" % (e[1], self.expr(e[2]), self.expr(e[3]))
+            if k == "ha" and self.mode in ("A", "M"):
+                a, b = self.expr(e[2]), self.expr(e[3])
+                if self.pre is not None:
+                    self.npromise += 1
+                    self.pre.append("p%d := ah%s(%s, %s)" % (self.npromise, e[1], a, b))
+                    return "(await p%d)" % self.npromise
+                return "(await ah%s(%s, %s))" % (e[1], a, b)
             return "h%s(%s, %s)" % (e[1], self.expr(e[2]), self.expr(e[3]))
         raise ValueError(e)
 
@@ -176,12 +261,12 @@ class Printer:
             return
         k = s[0]
         if k == "set":
-            out.append("%sx%s = %s" % (pad, s[1], self.expr(s[2])))
+            self.hoisted(pad, out, lambda: "x%s = %s" % (s[1], self.expr(s[2])))
         elif k == "bump":
             if self.closures:
-                out.append("%sb%s.(%s)" % (pad, s[1], self.expr(s[2])))
+                self.hoisted(pad, out, lambda: "b%s.(%s)" % (s[1], self.expr(s[2])))
             else:
-                out.append("%sx%s = (x%s + %s)" % (pad, s[1], s[1], self.expr(s[2])))
+                self.hoisted(pad, out, lambda: "x%s = (x%s + %s)" % (s[1], s[1], self.expr(s[2])))
         elif k == "seq":
             if len(s) == 1:
                 out.append(pad + "nil")
@@ -202,9 +287,9 @@ class Printer:
             if self.mode == "G":
                 out.append("%syield %s" % (pad, self.expr(s[1])))
             else:
-                out.append("%semit(%s)" % (pad, self.expr(s[1])))
+                self.hoisted(pad, out, lambda: "emit(%s)" % self.expr(s[1]))
         elif k == "ret":
-            out.append("%sreturn %s" % (pad, self.expr(s[1])))
+            self.hoisted(pad, out, lambda: "return %s" % self.expr(s[1]))
         elif k == "throw":
             out.append('%sthrow "t%s"' % (pad, s[1]))
         else:
@@ -212,18 +297,18 @@ class Printer:
 
     def func(self, fn):
         np_, inits, body, final = int(fn[1]), fn[2], fn[3], fn[4]
-        name = {"P": "def pf", "G": "def *gf", "A": "async def af"}[self.mode]
+        name = {"P": "def pf", "G": "def *gf", "A": "async def af", "M": "async def am"}[self.mode]
         params = ", ".join("x%d: Int" % i for i in range(np_))
         # a body that cannot throw is declared without a throw type (this changes how the checker marks tail calls)
         out = ["%s(%s): Int%s" % (name, params, " ! String" if can_throw(fn) else "")]
         bv = bumped_vars(body) if self.closures else []
         for i, e in enumerate(inits):
             x = str(np_ + i)
-            out.append("  x%s := %s" % (x, self.expr(e)))
+            self.hoisted("  ", out, lambda: "x%s := %s" % (x, self.expr(e)))
             if x in bv:
                 out.append("  b%s := |d: Int| -> x%s = x%s + d" % (x, x, x))
         self.stmt(body, 1, out)
-        out.append("  " + self.expr(final))
+        self.hoisted("  ", out, lambda: self.expr(final))
         out.append("end")
         return "\n".join(out) + "\n"
 
